@@ -240,6 +240,25 @@ def residual_terminals(r, out):
             residual_terminals(a, out)
 
 
+def safe_tree(e):
+    try:
+        return tree(e)
+    except Unsupported as ex:
+        return {"unsupported": str(ex)}
+
+
+def has_infinite(e):
+    """zoo / nan / oo somewhere in a built kernel (log(0), 0**-1, ...): not a kernel the property talks about"""
+    import sympy as sp
+    if isinstance(e, (list, tuple)):
+        return any(has_infinite(a) for a in e)
+    if isinstance(e, sp.MatrixBase):
+        return any(has_infinite(a) for a in e)
+    if isinstance(e, sp.Basic):
+        return bool(e.has(sp.zoo, sp.nan, sp.oo, -sp.oo))
+    return False
+
+
 def dict3(d, keys):
     return [int(d[k]) for k in keys]
 
@@ -266,6 +285,8 @@ def run_case(case):
     clear_cache()
     ctx = Ctx(case)
     k = ctx.build(case["kernel"])
+    if has_infinite(k):
+        return {"degenerate": True}
     out = {"kernel": tree(k)}
 
     # every chain occurring in the kernel (own traversal), its symbol, and the type of the result
@@ -299,7 +320,11 @@ def run_case(case):
         got = SymbolicExpr(k)
         res = []
         residual_terminals(got, res)
-        return {"equal": bool(got == want), "residual": sorted(set(res)), "got": str(got), "want": str(want)}
+        eq = bool(got == want)
+        # (no str() of whole expressions here: printing an Add that contains a sympde Constant, which claims
+        #  is_number, sends sympy into evalf and can take minutes)
+        return {"equal": eq, "residual": sorted(set(res)),
+                "got": None if eq else safe_tree(got), "want": None if eq else safe_tree(want)}
     out["subst"] = guarded(subst_check)
     out["find"] = guarded(lambda: [tree(c) for c in find_partial_derivatives(k)])
     out["max_phys"] = guarded(lambda: dict3(get_max_partial_derivatives(k), PH))
@@ -322,6 +347,43 @@ def run_case(case):
     return out
 
 
+def source_variant():
+    """Which of the three modelled repairs are present in the SOURCE TEXT of the functions under study
+    (True / False / None = shape not recognised).  Selects the model variant; the correspondence run then ties
+    the selected variant to the behaviour, so a wrong reading shows up as a disagreement."""
+    import inspect
+    import re
+    from sympde.topology import mapping as M
+    from sympde.topology import derivatives as D
+
+    def src(f):
+        try:
+            return inspect.getsource(inspect.unwrap(getattr(f, "__func__", f)))
+        except Exception:  # noqa
+            return ""
+    out = {}
+    s = src(M.SymbolicExpr.eval)
+    arg = r"cls\.eval\(\s*%s\s*,\s*code\s*=\s*code\s*\)"
+    if re.search(r"Pow\(\s*" + arg % "b" + r"\s*,\s*" + arg % "e" + r"\s*\)", s):
+        out["pe"] = True
+    elif re.search(r"Pow\(\s*" + arg % "b" + r"\s*,\s*e\s*\)", s):
+        out["pe"] = False
+    else:
+        out["pe"] = None
+    s = src(D.find_partial_derivatives)
+    new = ["isinstance(expr, Basic)" in s, "ImmutableDenseMatrix" in s, "find_partial_derivatives(expr.base)" not in s]
+    out["ea"] = True if all(new) else False if not any(new) else None
+    s1, s2 = src(D.get_index_derivatives_atom), src(D.get_index_logical_derivatives_atom)
+    helper = src(getattr(D, "_is_atom_of", None)) if hasattr(D, "_is_atom_of") else ""
+    if "_is_atom_of(a, atom)" in s1 and "_is_atom_of(a, atom)" in s2 and "a.base == atom" in helper:
+        out["vq"] = True
+    elif "if a == atom" in s1 and "if a == atom" in s2:
+        out["vq"] = False
+    else:
+        out["vq"] = None
+    return out
+
+
 def main():
     payload = json.load(open(sys.argv[1]))
     res = []
@@ -332,7 +394,11 @@ def main():
             res.append({"unsupported": str(e)})
         except Exception:  # noqa
             res.append({"crash": traceback.format_exc()})
-    json.dump({"results": res}, open(sys.argv[2], "w"))
+    try:
+        variant = source_variant()
+    except Exception:  # noqa
+        variant = {"pe": None, "ea": None, "vq": None, "error": traceback.format_exc()[-500:]}
+    json.dump({"results": res, "variant": variant}, open(sys.argv[2], "w"))
 
 
 if __name__ == "__main__":
